@@ -30,6 +30,18 @@ Theorem C12_flush_irrelevant : forall crc p, jparams_ok p -> forall fl1 fl2 rs,
 Proof. exact flush_irrelevant. Qed.
 Print Assumptions C12_flush_irrelevant.
 
+(*    ... nor on how the payload of a record is split into Write calls (jwrite_pieces: each
+      record is a list of pieces written by successive Write calls, as session records are). *)
+Theorem C12_split_writes_irrelevant : forall crc p, jparams_ok p -> forall fl fl' rss,
+  jwrite_pieces crc p fl rss = jwrite crc p fl' (map (@concat N) rss).
+Proof. exact split_writes_irrelevant. Qed.
+Print Assumptions C12_split_writes_irrelevant.
+
+Theorem C12_writer_pieces_total : forall crc p, jparams_ok p -> forall fl rss,
+  exists s, jwrite_pieces_res crc p fl rss = WOk s /\ w_out s = jwrite_pieces crc p fl rss.
+Proof. exact writer_pieces_total. Qed.
+Print Assumptions C12_writer_pieces_total.
+
 (* 3. The reader is total on arbitrary bytes: every slice/index expression stays in range
       (no Panic) and every loop terminates within the fuel given (no OutOfFuel). *)
 Theorem C12_no_panic : forall crc p, jparams_ok p -> forall strict ck b,
